@@ -1009,3 +1009,355 @@ Definition up_inflight_prompt (quic_waiters_fixed : bool) (k : ukind) : bool :=
   match k with KHttps => false | KQuic => quic_waiters_fixed | _ => true end.
 Definition up_orderly (k : ukind) : bool :=
   up_after_fails k false && up_after_fails k true && (up_leak k =? 0) && up_inflight_prompt true k.
+
+(* =====================================================================================================
+   Part 5 — QuicTransport  (internal/upstream/transport/quic_transport.go)
+   One cached connection t.c, at most one dialing call t.dialingCall whose waiters block on call.done.
+     getConn        : one critical section of t.m (closed? / cached conn alive? / join the call / start a call)
+     runDialingCall : DialContext; then one critical section (dialingCall = nil; closed ? : t.c = c); then, after
+                      unlocking, either CloseWithError on the late connection + call.err = closed, or
+                      call.c, call.err = c, err; finally close(call.done)        (the code as FIXED for K6b)
+     Close          : one critical section (closed = true; cancel t.ctx; t.c.CloseWithError)
+   All names of this part are prefixed sdq_/Sq/Qs/Qd/qc_/qd_/qt_/sq_.
+   ===================================================================================================== *)
+
+Record qconn := { qc_open : bool }.     (* the quic.Connection's context is alive (nobody closed it) *)
+
+Inductive qdstage :=
+| QdDialing                      (* DialContext running *)
+| QdGot (ok : bool)              (* DialContext returned (a connection / an error); t.m not yet taken *)
+| QdLate (ok : bool)             (* critical section found t.closed: about to close the late connection and fail the call *)
+| QdReady (r : option nat)       (* critical section stored t.c = c: about to publish call.c/call.err *)
+| QdEnd.                         (* close(call.done) happened *)
+
+Record qcall := {
+  qd_stage  : qdstage;
+  qd_result : option (option nat)    (* what the waiters read after call.done: None = not yet *)
+}.
+
+Inductive qstage :=
+| QsStart
+| QsWait (d : nat)                 (* dialingQuicCall.wait *)
+| QsHas (c : nat) (fresh : bool)   (* exchangeConn: OpenStream + write + read *)
+| QsDone.
+
+Record qtask := { qt_stage : qstage; qt_res : option bool; qt_retry : nat }.
+
+Record sdq_state := {
+  sq_closed : bool;
+  sq_cache  : option nat;      (* t.c *)
+  sq_call   : option nat;      (* t.dialingCall *)
+  sq_conns  : list qconn;
+  sq_calls  : list qcall;
+  sq_tasks  : list qtask
+}.
+
+Definition sdq_init : sdq_state :=
+  {| sq_closed := false; sq_cache := None; sq_call := None; sq_conns := []; sq_calls := []; sq_tasks := [] |}.
+
+Inductive sdq_label :=
+| SqSpawn
+| SqGet (t : nat)
+| SqDialOk (d : nat)
+| SqDialFail (d : nat)
+| SqFinish (d : nat)        (* the t.m critical section of runDialingCall *)
+| SqNotify (d : nat)        (* after unlocking: close the late connection / publish, then close(call.done) *)
+| SqWake (t : nat)
+| SqIoOk (t : nat)
+| SqIoClosed (t : nat)      (* OpenStream / stream I/O fails because the connection is closed *)
+| SqIoPeerErr (t : nat)     (* a stream error while the connection lives *)
+| SqPeerDead (c : nat)      (* the connection dies (peer, idle time-out) *)
+| SqCancel (t : nat)
+| SqClose.
+
+Definition sdq_set_task (s : sdq_state) (t : nat) (x : qtask) : sdq_state :=
+  {| sq_closed := sq_closed s; sq_cache := sq_cache s; sq_call := sq_call s; sq_conns := sq_conns s;
+     sq_calls := sq_calls s; sq_tasks := upd (sq_tasks s) t x |}.
+Definition sdq_set_call (s : sdq_state) (d : nat) (x : qcall) : sdq_state :=
+  {| sq_closed := sq_closed s; sq_cache := sq_cache s; sq_call := sq_call s; sq_conns := sq_conns s;
+     sq_calls := upd (sq_calls s) d x; sq_tasks := sq_tasks s |}.
+Definition sdq_set_conn (s : sdq_state) (c : nat) (x : qconn) : sdq_state :=
+  {| sq_closed := sq_closed s; sq_cache := sq_cache s; sq_call := sq_call s; sq_conns := upd (sq_conns s) c x;
+     sq_calls := sq_calls s; sq_tasks := sq_tasks s |}.
+
+Definition qwith_stage (k : qtask) (st : qstage) : qtask :=
+  {| qt_stage := st; qt_res := qt_res k; qt_retry := qt_retry k |}.
+
+Definition sdq_conn_open (s : sdq_state) (c : nat) : bool :=
+  match nth_error (sq_conns s) c with Some k => qc_open k | None => false end.
+
+(* exchangePayload after a failed exchangeConn: retry on a reused connection (retry < 5, ctx alive) *)
+Definition sdq_io_fail (s : sdq_state) (t : nat) (k : qtask) (fresh : bool) : sdq_state :=
+  match qt_res k with
+  | None =>
+      if negb fresh && (qt_retry k <? 5)
+      then sdq_set_task s t {| qt_stage := QsStart; qt_res := None; qt_retry := S (qt_retry k) |}
+      else sdq_set_task s t {| qt_stage := QsDone; qt_res := Some false; qt_retry := qt_retry k |}
+  | Some _ => sdq_set_task s t (qwith_stage k QsDone)
+  end.
+
+Definition sdq_step (s : sdq_state) (l : sdq_label) : option sdq_state :=
+  match l with
+  | SqSpawn =>
+      Some {| sq_closed := sq_closed s; sq_cache := sq_cache s; sq_call := sq_call s; sq_conns := sq_conns s;
+              sq_calls := sq_calls s; sq_tasks := sq_tasks s ++ [{| qt_stage := QsStart; qt_res := None; qt_retry := 0 |}] |}
+  | SqClose =>
+      if sq_closed s then Some s
+      else Some {| sq_closed := true; sq_cache := sq_cache s; sq_call := sq_call s;
+                   sq_conns := match sq_cache s with
+                               | Some c => upd (sq_conns s) c {| qc_open := false |}
+                               | None => sq_conns s
+                               end;
+                   sq_calls := sq_calls s; sq_tasks := sq_tasks s |}
+  | SqGet t =>
+      match nth_error (sq_tasks s) t with
+      | Some k =>
+          match qt_stage k with
+          | QsStart =>
+              if sq_closed s
+              then Some (sdq_set_task s t {| qt_stage := QsDone; qt_res := fail_res (qt_res k); qt_retry := qt_retry k |})
+              else
+                let alive := match sq_cache s with Some c => sdq_conn_open s c | None => false end in
+                match sq_cache s, alive with
+                | Some c, true => Some (sdq_set_task s t (qwith_stage k (QsHas c false)))
+                | _, _ =>
+                    (* t.c = nil (dead conn dropped); join the call in flight or start one *)
+                    match sq_call s with
+                    | Some d =>
+                        Some {| sq_closed := false; sq_cache := None; sq_call := Some d; sq_conns := sq_conns s;
+                                sq_calls := sq_calls s; sq_tasks := upd (sq_tasks s) t (qwith_stage k (QsWait d)) |}
+                    | None =>
+                        let d := length (sq_calls s) in
+                        Some {| sq_closed := false; sq_cache := None; sq_call := Some d; sq_conns := sq_conns s;
+                                sq_calls := sq_calls s ++ [{| qd_stage := QdDialing; qd_result := None |}];
+                                sq_tasks := upd (sq_tasks s) t (qwith_stage k (QsWait d)) |}
+                    end
+                end
+          | _ => None
+          end
+      | None => None
+      end
+  | SqDialOk d =>
+      match nth_error (sq_calls s) d with
+      | Some dd => match qd_stage dd with
+                   | QdDialing => Some (sdq_set_call s d {| qd_stage := QdGot true; qd_result := qd_result dd |})
+                   | _ => None
+                   end
+      | None => None
+      end
+  | SqDialFail d =>
+      match nth_error (sq_calls s) d with
+      | Some dd => match qd_stage dd with
+                   | QdDialing => Some (sdq_set_call s d {| qd_stage := QdGot false; qd_result := qd_result dd |})
+                   | _ => None
+                   end
+      | None => None
+      end
+  | SqFinish d =>
+      match nth_error (sq_calls s) d with
+      | Some dd =>
+          match qd_stage dd with
+          | QdGot ok =>
+              if sq_closed s
+              then Some {| sq_closed := true; sq_cache := sq_cache s; sq_call := None; sq_conns := sq_conns s;
+                           sq_calls := upd (sq_calls s) d {| qd_stage := QdLate ok; qd_result := qd_result dd |};
+                           sq_tasks := sq_tasks s |}
+              else
+                let c := length (sq_conns s) in
+                Some {| sq_closed := false;
+                        sq_cache := if ok then Some c else None;
+                        sq_call := None;
+                        sq_conns := if ok then sq_conns s ++ [{| qc_open := true |}] else sq_conns s;
+                        sq_calls := upd (sq_calls s) d {| qd_stage := QdReady (if ok then Some c else None); qd_result := qd_result dd |};
+                        sq_tasks := sq_tasks s |}
+          | _ => None
+          end
+      | None => None
+      end
+  | SqNotify d =>
+      match nth_error (sq_calls s) d with
+      | Some dd =>
+          match qd_stage dd with
+          | QdLate ok =>
+              (* c.CloseWithError(..) on the late connection, call.err = ErrClosedTransport, close(call.done) *)
+              Some {| sq_closed := sq_closed s; sq_cache := sq_cache s; sq_call := sq_call s;
+                      sq_conns := if ok then sq_conns s ++ [{| qc_open := false |}] else sq_conns s;
+                      sq_calls := upd (sq_calls s) d {| qd_stage := QdEnd; qd_result := Some None |};
+                      sq_tasks := sq_tasks s |}
+          | QdReady r => Some (sdq_set_call s d {| qd_stage := QdEnd; qd_result := Some r |})
+          | _ => None
+          end
+      | None => None
+      end
+  | SqWake t =>
+      match nth_error (sq_tasks s) t with
+      | Some k =>
+          match qt_stage k with
+          | QsWait d =>
+              match nth_error (sq_calls s) d with
+              | Some dd =>
+                  match qd_result dd with
+                  | Some (Some c) => Some (sdq_set_task s t (qwith_stage k (QsHas c true)))
+                  | Some None => Some (sdq_set_task s t {| qt_stage := QsDone; qt_res := fail_res (qt_res k); qt_retry := qt_retry k |})
+                  | None => None
+                  end
+              | None => None
+              end
+          | _ => None
+          end
+      | None => None
+      end
+  | SqIoOk t =>
+      match nth_error (sq_tasks s) t with
+      | Some k =>
+          match qt_stage k with
+          | QsHas c _ => if sdq_conn_open s c
+                         then Some (sdq_set_task s t {| qt_stage := QsDone; qt_res := ok_res (qt_res k); qt_retry := qt_retry k |})
+                         else None
+          | _ => None
+          end
+      | None => None
+      end
+  | SqIoClosed t =>
+      match nth_error (sq_tasks s) t with
+      | Some k =>
+          match qt_stage k with
+          | QsHas c fresh => if sdq_conn_open s c then None else Some (sdq_io_fail s t k fresh)
+          | _ => None
+          end
+      | None => None
+      end
+  | SqIoPeerErr t =>
+      match nth_error (sq_tasks s) t with
+      | Some k =>
+          match qt_stage k with
+          | QsHas c fresh => Some (sdq_io_fail s t k fresh)
+          | _ => None
+          end
+      | None => None
+      end
+  | SqPeerDead c =>
+      match nth_error (sq_conns s) c with
+      | Some _ => Some (sdq_set_conn s c {| qc_open := false |})
+      | None => None
+      end
+  | SqCancel t =>
+      match nth_error (sq_tasks s) t with
+      | Some k =>
+          match qt_stage k with
+          | QsStart => Some (sdq_set_task s t {| qt_stage := QsStart; qt_res := fail_res (qt_res k); qt_retry := qt_retry k |})
+          | _ => Some (sdq_set_task s t {| qt_stage := QsDone; qt_res := fail_res (qt_res k); qt_retry := qt_retry k |})
+          end
+      | None => None
+      end
+  end.
+
+Fixpoint sdq_run (s : sdq_state) (ls : list sdq_label) : option sdq_state :=
+  match ls with
+  | [] => Some s
+  | l :: tl => match sdq_step s l with Some s' => sdq_run s' tl | None => None end
+  end.
+
+(* a call that holds a dialled connection which is in nobody's table yet *)
+Definition qd_holds_raw (d : qcall) : bool :=
+  match qd_stage d with QdGot true | QdLate true => true | _ => false end.
+
+Definition sdq_open_count (s : sdq_state) : nat :=
+  length (filter qc_open (sq_conns s)) + length (filter qd_holds_raw (sq_calls s)).
+
+Definition sdq_result (s : sdq_state) (t : nat) : option bool :=
+  match nth_error (sq_tasks s) t with Some k => qt_res k | None => None end.
+
+(* the steps that complete call d, whatever its stage (dial failure = t.ctx cancelled by Close) *)
+Definition sdq_complete_path (s : sdq_state) (d : nat) : list sdq_label :=
+  match nth_error (sq_calls s) d with
+  | Some dd =>
+      match qd_stage dd with
+      | QdDialing => [SqDialFail d; SqFinish d; SqNotify d]
+      | QdGot _ => [SqFinish d; SqNotify d]
+      | QdLate _ | QdReady _ => [SqNotify d]
+      | QdEnd => []
+      end
+  | None => []
+  end.
+
+(* ---- big step ---- *)
+Definition sdq_internal_task (s : sdq_state) (t : nat) (k : qtask) : option sdq_label :=
+  match qt_stage k with
+  | QsStart => Some (SqGet t)
+  | QsWait d => match nth_error (sq_calls s) d with
+                | Some dd => match qd_result dd with Some _ => Some (SqWake t) | None => None end
+                | None => None
+                end
+  | QsHas c _ => if sdq_conn_open s c then None else Some (SqIoClosed t)
+  | QsDone => None
+  end.
+
+Definition sdq_internal_call (honour : bool) (s : sdq_state) (d : nat) (dd : qcall) : option sdq_label :=
+  match qd_stage dd with
+  | QdDialing => if honour && sq_closed s then Some (SqDialFail d) else None
+  | QdGot _ => Some (SqFinish d)
+  | QdLate _ | QdReady _ => Some (SqNotify d)
+  | QdEnd => None
+  end.
+
+Fixpoint sdq_first_task (s : sdq_state) (ts : list qtask) (off : nat) : option sdq_label :=
+  match ts with
+  | [] => None
+  | k :: tl => match sdq_internal_task s off k with Some l => Some l | None => sdq_first_task s tl (S off) end
+  end.
+Fixpoint sdq_first_call (honour : bool) (s : sdq_state) (ds : list qcall) (off : nat) : option sdq_label :=
+  match ds with
+  | [] => None
+  | d :: tl => match sdq_internal_call honour s off d with Some l => Some l | None => sdq_first_call honour s tl (S off) end
+  end.
+Definition sdq_first_internal (honour : bool) (s : sdq_state) : option sdq_label :=
+  match sdq_first_call honour s (sq_calls s) 0 with
+  | Some l => Some l
+  | None => sdq_first_task s (sq_tasks s) 0
+  end.
+
+Fixpoint sdq_quiesce (honour : bool) (fuel : nat) (s : sdq_state) : sdq_state :=
+  match fuel with
+  | O => s
+  | S f => match sdq_first_internal honour s with
+           | Some l => match sdq_step s l with Some s' => sdq_quiesce honour f s' | None => s end
+           | None => s
+           end
+  end.
+
+Fixpoint sdq_open_indices (l : list qconn) (off : nat) : list nat :=
+  match l with
+  | [] => []
+  | k :: tl => (if qc_open k then [off] else []) ++ sdq_open_indices tl (S off)
+  end.
+
+Definition sdq_conn_of (s : sdq_state) (t : nat) : option nat :=
+  match nth_error (sq_tasks s) t with
+  | Some k => match qt_stage k with QsHas c _ => Some c | _ => None end
+  | None => None
+  end.
+
+Definition sdq_ext_labels (s : sdq_state) (e : xev) : option (list sdq_label) :=
+  match e with
+  | XSpawn => Some [SqSpawn]
+  | XDialOk d => Some [SqDialOk d]
+  | XDialFail d => Some [SqDialFail d]
+  | XReply t => Some [SqIoOk t]
+  | XPeerErr t => match sdq_conn_of s t with Some c => Some [SqPeerDead c] | None => None end
+  | XCancel t => Some [SqCancel t]
+  | XIdle => Some (map SqPeerDead (sdq_open_indices (sq_conns s) 0))
+  | XClose => Some [SqClose]
+  end.
+
+Definition sdq_big (honour : bool) (s : sdq_state) (e : xev) : option sdq_state :=
+  match sdq_ext_labels s e with
+  | Some ls => match sdq_run s ls with
+               | Some s1 => Some (sdq_quiesce honour big_fuel s1)
+               | None => None
+               end
+  | None => None
+  end.
+
+Definition sdq_quiet (honour : bool) (s : sdq_state) : bool :=
+  match sdq_first_internal honour s with None => true | Some _ => false end.
